@@ -75,6 +75,12 @@ var segSizes = []int{1, 2, 7, 100, 1460, 1900, 1901, 4000, 9000}
 
 // wrapISN picks an ISN so that the wrap at 2^32 falls at a PRNG-chosen alignment inside (or right around) the stream.
 func wrapISN(r *vlib.Rand, n int) uint32 {
+	if r.Chance(1, 4) {
+		// a mark of the sequence space lies inside the stream: the quarter marks (where implementations switch between
+		// their "wrapped" and "not wrapped" comparison), the half mark, the full wrap
+		mark := []uint64{1 << 30, 1 << 31, 3 << 30, 1 << 32}[r.Intn(4)]
+		return uint32(mark - uint64(r.Range(1, n+3)))
+	}
 	switch r.Intn(8) {
 	case 0:
 		return 0
